@@ -1586,6 +1586,15 @@ impl<'t> Gen<'t> {
             let (f, ft, _) = &fs[0];
             out.push((f.clone(), Pat::Var(self.fresh("b"), ft.subst(&map))));
           }
+          // fields may be written in any order (the lowering must go by the declared position)
+          if out.len() >= 2 && self.t.bool(1, 2) {
+            self.feat("pattern:struct-fields-out-of-declaration-order");
+            let k = 1 + self.t.choose(out.len() - 1);
+            out.rotate_left(k);
+            if self.t.bool(1, 2) {
+              out.reverse();
+            }
+          }
           return Pat::Struct(out);
         }
         if self.t.bool(1, 5) { Pat::Wild } else { Pat::Var(self.fresh("b"), ty.clone()) }
